@@ -263,6 +263,41 @@ type Scenario struct {
 }
 
 var registry = map[string]*Scenario{}
+var extras = map[string][]func(c *Ctx){}
+
+// RegisterExtra adds a further stage to a property's scenario (run after its main Run), so that
+// transport-level stages can live in their own files.
+func RegisterExtra(prop string, f func(c *Ctx)) { extras[prop] = append(extras[prop], f) }
+
+var extraReplays = map[string][]func(c *Ctx, raw json.RawMessage) bool{}
+
+// RegisterReplay adds a replay handler for the cases of an extra stage; it returns true when the
+// recorded case was one of its own.
+func RegisterReplay(prop string, f func(c *Ctx, raw json.RawMessage) bool) {
+	extraReplays[prop] = append(extraReplays[prop], f)
+}
+
+// ReplayAny re-runs one recorded case with whichever stage recognises it.
+func (s *Scenario) ReplayAny(prop string, c *Ctx, raw json.RawMessage) bool {
+	for _, f := range extraReplays[prop] {
+		if f(c, raw) {
+			return true
+		}
+	}
+	if s.Replay == nil {
+		return false
+	}
+	s.Replay(c, raw)
+	return true
+}
+
+// RunAll runs the main scenario and its extra stages.
+func (s *Scenario) RunAll(prop string, c *Ctx) {
+	s.Run(c)
+	for _, f := range extras[prop] {
+		f(c)
+	}
+}
 
 func Register(prop string, s *Scenario) { registry[prop] = s }
 func Lookup(prop string) *Scenario      { return registry[prop] }
